@@ -416,6 +416,10 @@ func removeFromCollection(col ItemCollection, items ...Item) ItemCollection {
 		return col
 	}
 	for _, ob := range col {
+		if IsNil(ob) {
+			result = append(result, ob)
+			continue
+		}
 		found := false
 		for _, it := range items {
 			if ob.GetID().Equals(it.GetID(), false) {
